@@ -236,13 +236,17 @@ def run(rep):
         dstn = f["params"][2]["name"]
         bad = []
         nfill = 0
+        # destination iterators: the locals initialised from the destination view's row (role, not name)
+        dst_its = {dd["name"] for dn, _ in R.find(f["body"], lambda x: x.get("k") == "Decl") for dd in dn["decls"]
+                   if dd.get("name") and dd.get("init") is not None and re.match(r"%s\.(row_begin|begin|x_at|row_end)\(" % re.escape(dstn), R.key(dd["init"]))}
+        optn = f["params"][3]["name"] if len(f["params"]) > 3 else "option"
         for c, p in R.calls_in(f["body"], lambda n: n in ("std::fill_n", "boost::gil::fill_pixels")):
             tgt = R.key(c["args"][0])
-            if tgt not in ("it_dst", dstn) and not tgt.startswith(dstn):
+            if tgt not in dst_its and tgt != dstn and not tgt.startswith(dstn):
                 continue
             nfill += 1
             gs = R.guards(p)
-            if not any(op == "==" and "output_zero" in (l + r) and "option" in (l + r) for op, l, r in gs):
+            if not any(op == "==" and "output_zero" in (l + r) and optn in (l, r) for op, l, r in gs):
                 bad.append({"call": R.key(c)[:120], "line": c.get("line")})
         rep.count("obligations:V3")
         if bad or nfill < 3:
@@ -285,7 +289,11 @@ def run(rep):
         if not f["name"].endswith("detail::convolve_2d_impl"):
             continue
         rep.count("obligations:V4")
-        sv, dv = f["params"][0]["name"], f["params"][1]["name"]
+        f0 = f
+        f = R.canonize(f0)          # $0 source, $1 destination; #0 view row, #1 view column
+        sv, dv = "$0", "$1"
+        vl = [l for l in R.loops_of(f["body"]) if l.get("k") == "For"]
+        rowv, colv = (R.for_shape(vl[0])[0], R.for_shape(vl[1])[0]) if len(vl) >= 2 and R.counts_up(vl[0], "$0.height()") and R.counts_up(vl[1], "$0.width()") else ("?", "?")
         reads = R.find(f["body"], lambda x: x.get("k") == "Call" and x.get("op") == "()" and len(x.get("args", [])) == 3 and R.key(x["args"][0]) == sv)
         bad = []
         for c, p in reads:
@@ -296,8 +304,8 @@ def run(rep):
             if miss:
                 bad.append({"access": R.key(c), "missing_guards": miss})
         wr = [R.key(c.get("l") or c["args"][0]) for c, p in R.find(f["body"], lambda x: x.get("k") in ("Assign", "Call") and x.get("op") == "=" and R.key(x.get("l") or x["args"][0]).startswith(dv + "("))]
-        if bad or not reads or wr != ["%s(view_col,view_row)" % dv]:
-            rep.violation("V4-2d", "V4:convolve_2d_impl", R.fn_where(f), {"unguarded_reads": bad, "reads": len(reads), "writes": wr})
+        if bad or not reads or wr != ["%s(%s,%s)" % (dv, colv, rowv)]:
+            rep.violation("V4-2d", "V4:convolve_2d_impl", R.fn_where(f0), {"unguarded_reads": bad, "reads": len(reads), "writes": wr, "view loops (row, column)": [rowv, colv]})
         else:
             rep.ok("V4-2d", "convolve_2d_impl " + f["full"][-20:], {"reads": len(reads), "writes": wr})
     rep.floor("obligations:V4", 1)
